@@ -5,6 +5,7 @@ Works on the per-path traces of the abstract interpreter: the final value writte
 is a term over the counter's old value; it is decomposed into a signed sum ("linear form")."""
 from collections import defaultdict
 from .core import RuleResult, CheckFailure
+from .roles import ev_is, wrapper_kind, write_scheduler
 from .roles import CHAN_RECV
 from .roles import named
 from .kernel import norm
@@ -218,8 +219,8 @@ def rule_flow_unsync(ctx):
                     # result discarded: must be the rejection of this function's own candidate
                     keyarg = e[2][1] if len(e[2]) > 1 else None
                     from_param = keyarg is not None and any(isinstance(x, tuple) and x and x[0] == 'param' for x in subterms(keyarg))
-                    admits_elsewhere = any(any(ev[0] == 'call' and str(ev[1]).endswith('push_back_ao') for ev in q.events) for q in paths)
-                    admitted_here = any(ev[0] == 'call' and str(ev[1]).endswith('push_back_ao') for ev in p.events)
+                    admits_elsewhere = any(any(ev_is(ctx, ev, 'push', 'ao') for ev in q.events) for q in paths)
+                    admitted_here = any(ev_is(ctx, ev, 'push', 'ao') for ev in p.events)
                     ok = from_param and admits_elsewhere and not admitted_here
                     n_rem += 1
                     r.instance(function=nid, event='discarding-removal', key=fmt(keyarg) if keyarg else None, own_candidate_rejection=ok)
@@ -281,7 +282,7 @@ def rule_flow_unsync(ctx):
                               'the removed-count component returned by %s is not subtracted from entry_count (subtracted: %s)' % (
                                   e[1], [fmt(a)[:50] for s, a in fec if s == -1]), where=ctx.where(nid, e[3]))
             # ---- admissions
-            adm = [e for e in p.events if e[0] == 'call' and str(e[1]).endswith('push_back_ao')]
+            adm = [e for e in p.events if ev_is(ctx, e, 'push', 'ao')]
             if adm:
                 n_adm += 1
                 ws_ok = any(s == 1 and isinstance(strip_cast(a), tuple) and strip_cast(a)[0] == 'param' for s, a in fws)
@@ -455,9 +456,9 @@ def _remove_role_summary(ctx, nid):
                 probs.append('admitted path does not subtract 1 from the entry count')
             if not any(s == -1 and 'policy_weight' in fmt(a) for s, a in fws):
                 probs.append('admitted path does not subtract the entry weight')
-            if not any(n.startswith('unlink_ao') for n in names):
+            if not any(ev_is(ctx, e, 'unlink', 'ao') for e in p.events):
                 probs.append('admitted path does not unlink the access-order node')
-            if not any(n.startswith('unlink_wo') for n in names):
+            if not any(ev_is(ctx, e, 'unlink', 'wo') for e in p.events):
                 probs.append('admitted path does not unlink the write-order node')
             cleared = any(e[0] == 'call' and str(e[1]).startswith('std::sync::atomic::') and str(e[1]).endswith('::store') and
                           'is_admitted' in fmt(e[2][0]) and e[2][1] == ('c', False) for e in p.events)
@@ -520,7 +521,7 @@ def rule_flow_sync(ctx):
         for c, v in p.conds:
             if isinstance(c, tuple) and c[0] == 'call' and str(c[1]).endswith('::load') and 'is_admitted' in fmt(c) and admitted_first is None:
                 admitted_first = v
-        pushes = [e for e in p.events if e[0] == 'call' and str(e[1]).endswith('push_back_ao')]
+        pushes = [e for e in p.events if ev_is(ctx, e, 'push', 'ao')]
         if admitted_first is True:
             n_upd += 1
             ec_same = ec is None or fec == [(1, kec)]
@@ -626,7 +627,7 @@ def rule_flow_sync(ctx):
                 if c == ('discr', res):
                     tag = v
             if tag == 1:
-                sent = any(ev[0] == 'call' and (str(ev[1]).endswith('schedule_write_op') or str(ev[1]).endswith('try_send')) and
+                sent = any(ev[0] == 'call' and (ev[1] in write_scheduler(ctx) or str(ev[1]).endswith('try_send')) and
                            any('Remove(' in fmt(a) and any(y == res for y in subterms(a)) for a in ev[2]) for ev in p.events)
                 r.instance(function=inv, event='removal', queued_as_remove_op=sent)
                 n_rem += 1
